@@ -1208,6 +1208,9 @@ func (ex *Exec) doReturn(st *State, r *ssa.Return) {
 			}
 		}
 	}
+	// vacuity guard: at least one return path must be reachable under everything assumed so far (a contradictory
+	// callee contract or invariant would otherwise "prove" every postcondition)
+	ex.obligs = append(ex.obligs, Oblig{Name: ex.obName("cover.return"), Kind: "cover", Asm: st.asm[:len(st.asm):len(st.asm)], Goal: tFalse, Cover: true, Desc: "some return is reachable"})
 	for _, w := range ex.spec.Witnesses {
 		env.vars[w.Name] = TV{ex.evalWitness(env, w), nil}
 	}
